@@ -71,7 +71,9 @@ class Interp(ExprMixin):
         self.unknowns: List[str] = []
         self.symtypes: Dict[str, tuple] = {}
         self.static_syms: Set[str] = set()
-        self._ptype_cache: Dict = {}
+        if not hasattr(project, "_ptype_cache"):
+            project._ptype_cache = {}
+        self._ptype_cache = project._ptype_cache
         self._loop_counter = 0
         self._obj_counter = 0
         self._via: List[str] = []
@@ -288,7 +290,7 @@ class Interp(ExprMixin):
             return self.exec_block(st.body)
         if t is False:
             return self.exec_block(st.orelse)
-        g = self.to_term(c)
+        g = self.guard_term(c)
         env0, heap0 = self.frame.env, self.heap
         # then branch
         self.frame.env, self.heap = dict(env0), dict(heap0)
